@@ -222,3 +222,16 @@ pub fn trailing_is_at_most_one_err(d: &Decoded) -> Result<(), String> {
         n => Err(format!("{} message(s) after the last served command, first starts {:02x?}", n, &d.trailing[0][..d.trailing[0].len().min(8)])),
     }
 }
+
+/// Server output without its first packet (the greeting, whose connection id and salt a server is
+/// free to choose per connection): what byte-for-byte comparisons between two runs may look at.
+pub fn after_greeting(out: &[u8]) -> &[u8] {
+    if out.len() < 4 {
+        return out;
+    }
+    let n = out[0] as usize | (out[1] as usize) << 8 | (out[2] as usize) << 16;
+    if out.len() < 4 + n {
+        return &out[out.len()..];
+    }
+    &out[4 + n..]
+}
